@@ -522,7 +522,12 @@ def parseLevel : Nat → Nat → List Tok → PRes
         match rest with
         | .word _ :: _ =>
           match parseLevel fuel lvValue rest with
-          | some (some x, rest') => some (some (.unary op false x), rest')
+          | some (some x, rest') =>
+            if isArithName (some x) then some (some (.unary op false x), rest')
+            else
+              -- like bash, `--5` / `++5` are two unary signs
+              let sign : UnOp := if op = .inc then .plus else .minus
+              some (some (.unary sign false (.unary sign false x)), rest')
           | some (none, _) => none   -- unreachable: a word is always a value
           | none => none
         | _ => none
